@@ -497,6 +497,24 @@ def marker_catalogue():
                     m.finalize()
                     where = "none" if not pr else "+".join("root" if x < nroot else "add" for x in pr)
                     yield "marker:%s:%s" % (kind, where), m
+                # a reference to a type that does not exist, in the root and among the additions
+                for pos in range(n):
+                    comps = []
+                    for i in range(n):
+                        t = Type(kinds[i]) if i != pos else Type("REF", ref="NoSuchType")
+                        if tagdef != "AUTOMATIC":
+                            t.tag = ("C", i, "EXPLICIT" if i == pos else None)
+                        c = Comp("m%d" % i, t)
+                        if kind != "CHOICE" and i >= nroot and i % 2:
+                            c.optional = True
+                        comps.append(c)
+                    m = Module("X%d" % k, tagdef)
+                    k += 1
+                    m.add("T", Type(kind, comps=comps[:nroot], ext=comps[nroot:] if nadd else None))
+                    for t in m.types.values():
+                        _setmod(t, m)
+                    m.finalize()
+                    yield "marker:%s:dangling-%s" % (kind, "root" if pos < nroot else "add"), m
     for items, ext in (([("a", 0), ("b", 1)], [("c", 2), ("d", 3)]), ([("a", 0)], [("b", 5), ("c", 6), ("d", 9)])):
         allit = items + ext
         for what in ("name", "value"):
